@@ -15,6 +15,9 @@ enum L {
     Remove { key: &'static str },
     Inc { key: &'static str },
     Snapshot,
+    /// a stale versioned write issued in the same clock tick as the change the key holds (a coarse
+    /// clock): neither is "more recent"; whichever is kept, reply, watcher and replicas must agree
+    SetSafeTied { key: &'static str },
 }
 
 pub struct W {
@@ -120,6 +123,59 @@ impl SeqModel for C19 {
             }
             _ => {}
         }
+        if let L::SetSafeTied { key } = &l {
+            let cur = w.kv.cur_version(key);
+            let old = match w.kv.model.get(*key) {
+                Some(o) if cur >= 1 => o.clone(),
+                // nothing to tie with (or no version that could be stale)
+                _ => return vec![],
+            };
+            let line = format!("set-safe {} {} {}", key, cur - 1, val);
+            // the clock reads, for the whole command, what it read when the stored change was issued
+            let stamp = crate::world::with_db(&w.kv.node.dbs, "t", |db| crate::world::dump_db(db).get(*key).map(|x| x.opp_id)).flatten().unwrap_or(0);
+            let now = w.kv.node.ctx.clock.load(std::sync::atomic::Ordering::SeqCst);
+            w.kv.node.ctx.clock.store(stamp, std::sync::atomic::Ordering::SeqCst);
+            w.kv.node.ctx.clock_hold.store(true, std::sync::atomic::Ordering::SeqCst);
+            let o = w.kv.tok.exec(&w.kv.node, &line);
+            w.kv.node.ctx.clock_hold.store(false, std::sync::atomic::Ordering::SeqCst);
+            w.kv.node.ctx.clock.store(now, std::sync::atomic::Ordering::SeqCst);
+            let rv = w.replicate_and_compare(&format!("`{}` issued in the clock tick of the stored change", line));
+            if o.panic.is_some() {
+                return v("panic", format!("`{}`: {:?}", line, o));
+            }
+            if !rv.is_empty() {
+                return rv;
+            }
+            if o.resp != "Ok" {
+                return v("write-refused", format!("`{}` (current version {}, same clock tick): {:?}", line, cur, o));
+            }
+            let stored = crate::world::with_db(&w.kv.node.dbs, "t", |db| crate::world::live_view(&crate::world::dump_db(db)).get(*key).map(|x| x.0.clone())).flatten();
+            let n = w.watcher.drain();
+            let changed: Vec<&String> = n.iter().filter(|m| m.starts_with("changed ")).collect();
+            if stored.as_deref() == Some(val.as_str()) {
+                w.kv.model.insert(key.to_string(), val.clone());
+                if changed.len() != 1 || *changed[0] != format!("changed {} {}\n", key, val) {
+                    return v("watcher-mismatch", format!("`{}` (same clock tick) stored {:?}; watcher got {:?}", line, val, n));
+                }
+            } else if stored.as_deref() == Some(old.as_str()) {
+                if !changed.is_empty() {
+                    return v("watcher-mismatch", format!("`{}` (same clock tick) kept {:?}; watcher got {:?}", line, old, n));
+                }
+            } else {
+                return v("last-write-lost", format!("after `{}` (same clock tick) the key holds {:?}, neither the old {:?} nor the new value", line, stored, old));
+            }
+            if let Err(e) = w.kv.read_paths_agree(&["k", "j"]) {
+                return v("last-write-lost", format!("after `{}` (same clock tick): {}", line, e));
+            }
+            let after = w.kv.cur_version(key);
+            if let Some(prev) = w.last_version.get(*key) {
+                if after < *prev {
+                    return v("version-not-increasing", format!("`{}` (same clock tick): version {} -> {}", line, prev, after));
+                }
+            }
+            w.last_version.insert(key.to_string(), after);
+            return vec![];
+        }
         let key = match &l {
             L::Set { key } | L::SetSafe { key, .. } | L::Inc { key } => *key,
             _ => unreachable!(),
@@ -193,6 +249,7 @@ pub fn run(run: &mut Run) {
         letters.push(L::Inc { key });
     }
     letters.push(L::Snapshot);
+    letters.push(L::SetSafeTied { key: "k" });
     let m = C19 { letters };
     let cfg = SeqConfig { max_depth: if quick { 4 } else { 6 }, workers: crate::util::workers(), max_states: 3_000_000, budget: Duration::from_secs(if quick { 25 } else { 900 }) };
     let res = explore(&m, &cfg);
